@@ -121,7 +121,8 @@ fn run_case<I: Inst>(sink: &mut Sink, id: &str, ops: &mut dyn FnMut(&I, usize) -
         if toks[0] == I::CLOSE {
             for s in &slp {
                 if !wakes.contains(&s.waker) && (I::MULTI || !s.others_polled) {
-                    sink.monitor_fail(&format!("close-no-wake:{}", I::NAME), &format!("{} did not wake waker {} of task {} which is asleep in `{}`", op, s.waker, s.task, s.op));
+                    let key = if s.others_polled { format!("close-no-wake:{}:multi-task", I::NAME) } else { format!("close-no-wake:{}", I::NAME) };
+                    sink.monitor_fail(&key, &format!("{} did not wake waker {} of task {} which is asleep in `{}`", op, s.waker, s.task, s.op));
                 }
             }
         }
@@ -141,7 +142,9 @@ fn run_case<I: Inst>(sink: &mut Sink, id: &str, ops: &mut dyn FnMut(&I, usize) -
             let t: usize = toks[1].parse().unwrap();
             slp.retain(|s| s.task != t);
         } else if I::OWNER_OPS.contains(&toks[0]) {
-            slp.retain(|s| s.task != 0);
+            // the single owner acted: it is awake (in the multi-task stress mode of a single-owner API every
+            // task index stands for that owner)
+            if I::MULTI { slp.retain(|s| s.task != 0); } else { slp.clear(); }
         }
         if !wakes.is_empty() {
             interesting = true;
